@@ -8,6 +8,7 @@
 #include <cstring>
 #include <memory>
 #include <sstream>
+#include <stdexcept>
 #include <thread>
 #include <vector>
 
@@ -32,18 +33,21 @@ const char* const kFaultNames[] = { "preemption", "child_runs_first_at_create", 
 enum ProbeId { P_singleton_run, P_managed_run, P_two_threads_inside_instance, P_lock_waited,
                P_query_while_running, P_query_before_start, P_query_after_finish, P_child_ran_before_ctor_end,
                P_join_explicit, P_join_by_destructor, P_observer_thread, P_reset_between_rounds,
-               P_policy_random, P_policy_pct, P_policy_rr, P_function_over_before_ctor_end, P_two_singleton_types, P_persistent_threads };
+               P_policy_random, P_policy_pct, P_policy_rr, P_function_over_before_ctor_end, P_two_singleton_types, P_persistent_threads, P_constructor_throws_once };
 const char* const kProbeNames[] = { "singleton_run", "managed_run", "two_threads_inside_instance", "lock_waited",
                "query_while_function_running", "query_before_start", "query_after_finish",
                "child_ran_before_constructor_finished", "join_explicit", "join_by_destructor", "observer_thread",
                "reset_between_rounds", "policy_random", "policy_pct", "policy_rr",
-               "function_finished_before_constructor_returned", "two_singleton_types_in_one_run", "threads_living_across_reset" };
+               "function_finished_before_constructor_returned", "two_singleton_types_in_one_run", "threads_living_across_reset", "first_construction_attempt_throws" };
 
 // ------------------------------------------------------------ singleton
 
 std::atomic< int>  g_constructions{ 0 };
 std::atomic< int>  g_inside{ 0 };       // threads currently between entry and exit of instance()
 std::atomic< int>  g_max_inside{ 0 };
+
+std::atomic< int>  g_fail_next{ 0 };    // the next Probe constructor throws
+std::atomic< int>  g_ctor_failures_seen{ 0 };
 
 uint64_t payloadWord( int arg, int idx)
 {
@@ -72,6 +76,9 @@ public:
 protected:
    explicit Probe( int a): arg( a)
    {
+      // plan option: the first construction attempt of a round fails
+      if (g_fail_next.exchange( 0, std::memory_order_relaxed) != 0)
+         throw std::runtime_error( "simulated failure in the constructor of the singleton object");
       // relaxed: the probes of the harness must not synchronise the threads
       g_constructions.fetch_add( 1, std::memory_order_relaxed);
       for (int k = 0; k < 6; ++k)
@@ -157,7 +164,21 @@ void singletonWorker( int ctor_arg, Slot* slot, std::atomic< int>* go)
    int  now = g_inside.fetch_add( 1, std::memory_order_relaxed) + 1;
    int  seen = g_max_inside.load( std::memory_order_relaxed);
    while (now > seen && !g_max_inside.compare_exchange_weak( seen, now, std::memory_order_relaxed)) {}
-   Probe&  p = Probe::instance( ctor_arg);
+   Probe*  pp = nullptr;
+   for (int attempt = 0; attempt < 3 && pp == nullptr; ++attempt)
+   {
+      try
+      {
+         pp = &Probe::instance( ctor_arg);
+      } catch (const std::runtime_error&)
+      {
+         // a failed construction must leave the singleton "not created":
+         // this thread or another one constructs it on the next access
+         g_ctor_failures_seen.fetch_add( 1, std::memory_order_relaxed);
+      }
+   }
+   if (pp == nullptr) { g_inside.fetch_sub( 1, std::memory_order_relaxed); return; }
+   Probe&  p = *pp;
    g_inside.fetch_sub( 1, std::memory_order_relaxed);
    slot->addr = &p;
    slot->arg = p.arg;
@@ -290,6 +311,7 @@ public:
          plan[ "barrier"] = cfg.chance( 1, 2);
          plan[ "two_types"] = cfg.chance( 1, 3);
          plan[ "persistent"] = cfg.chance( 1, 4);
+         plan[ "ctor_throws"] = cfg.chance( 1, 4);
          plan[ "sched"] = sim::genSchedule( sc, 400 * static_cast< uint64_t>( plan.geti( "threads")));
       } else
       {
@@ -401,6 +423,10 @@ private:
       // inside it every load of non-stack memory is a schedule point, and
       // whether the plan object lives on the stack or on the heap must not matter
       const bool  persistent = plan.geti( "persistent", 0) != 0;
+      const bool  ctor_throws = plan.geti( "ctor_throws", 0) != 0 && !persistent;
+      if (ctor_throws) st.probe( P_constructor_throws_once);
+      g_fail_next.store( 0);
+      g_ctor_failures_seen.store( 0);
       int  max_inside_all = 0;
       sim::schedBegin( sh.cfg);
       if (persistent)
@@ -456,6 +482,7 @@ private:
       {
          g_constructions.store( 0);
          g_constructions_b.store( 0);
+         g_fail_next.store( ctor_throws ? 1 : 0);
          g_inside.store( 0);
          g_max_inside.store( 0);
          std::vector< Slot>            slots( static_cast< size_t>( k));
